@@ -58,6 +58,54 @@ def first_switch(bv, pred=None):
     return None
 
 
+def _truth_table(R, c, bv):
+    """C19-R2 decided semantically: the function's result under each of the 27 assignments {Wall, Monotonic, Complex} x
+    {wall before / equal / after} x {mono before / equal / after}, computed by the finite-domain evaluator (va/absint.py)
+    whatever the spelling (match arms, `destructure()` with early returns, Option combinators).  Returns False when the
+    evaluator cannot follow the body (then the arm-by-arm rule below is used)."""
+    from .. import absint, flow
+    W = flow.World([c])
+    rows = {}
+    wrong = []
+    names = {"<": "before", "=": "equal to", ">": "after"}
+    try:
+        for variant in ("Wall", "Monotonic", "Complex"):
+            for rw in "<=>":
+                for rm in "<=>":
+                    def oracle(a, b, rw=rw, rm=rm):
+                        if (a, b) == ("self.wall", "o.wall"):
+                            return rw
+                        if (a, b) == ("self.mono", "o.mono"):
+                            return rm
+                        return None
+                    me = ("ref", absint.adt("ComplexTime", [absint.sym("self.wall"), absint.sym("self.mono")]))
+                    if variant == "Wall":
+                        other = absint.adt("Wall", [absint.sym("o.wall")])
+                        exp = rw in "=>"
+                    elif variant == "Monotonic":
+                        other = absint.adt("Monotonic", [absint.sym("o.mono")])
+                        exp = rm in "=>"
+                    else:
+                        other = absint.adt("Complex", [absint.adt("ComplexTime", [absint.sym("o.wall"), absint.sym("o.mono")])])
+                        exp = rw in "=>" or rm in "=>"
+                    ev = absint.Eval(W, oracle)
+                    got = ev.truth(ev.run(bv, [me, other]))
+                    rows[(variant, rw, rm)] = got
+                    if got != exp:
+                        wrong.append("%s deadline, wall %s and mono %s it: %s (expected %s)" % (variant, names[rw], names[rm], got, exp))
+    except absint.Unknown as e:
+        R.holds("C19-R2", "truth-table-evaluator", "NOTE: the finite-domain evaluator does not follow this spelling (%s); the arm-by-arm rule decides" % str(e)[:80], nontrivial=False)
+        return False
+    R.count("bodies")
+    R.check("C19-R2", "truth-table", not wrong, "27 of 27 assignments (variant x wall order x mono order) give `present component reached`, combined with OR",
+            "is_after_or_eq_any is wrong for: %s" % "; ".join(wrong[:4]) + (" (and %d more)" % (len(wrong) - 4) if len(wrong) > 4 else ""))
+    for variant in ("Wall", "Monotonic", "Complex"):
+        bad = [k for k, v in rows.items() if k[0] == variant and any(w.startswith(variant) for w in wrong)]
+        R.check("C19-R2", "arm:" + variant, not any(w.startswith(variant + " ") for w in wrong), "all 9 orderings of a %s deadline decided as stated" % variant,
+                "a %s deadline is compared wrongly" % variant)
+    return True
+
+
 def run(F, R):
     c = F.client
     R.trust("std::time (SystemTime/Instant/Duration arithmetic and comparison), Duration::as_micros truncation")
@@ -166,7 +214,10 @@ def run(F, R):
     # ---------------------------------------------------------------- R2 comparison table
     R.rule("C19-R2", "is_after_or_eq_any compares exactly the components present on both sides with >= and combines them with OR")
     bv = lib.one(R, "C19-R2", c, "ComplexTime::is_after_or_eq_any", item="is_after_or_eq_any", impl_self=CT)
+    decided = False
     if bv:
+        decided = _truth_table(R, c, bv)
+    if bv and not decided:
         R.count("bodies")
         sbi = first_switch(bv, lambda si: si.kind == "discr" and si.ty.get("d") == PCT)
         if sbi is None:
